@@ -11,6 +11,7 @@ mod c10;
 mod c11;
 mod c12;
 mod c13;
+mod c14;
 mod c15;
 mod c20;
 mod reftest;
@@ -62,6 +63,7 @@ fn main() {
         "C11" => c11::run(report),
         "C12" => c12::run(report),
         "C13" => c13::run(report),
+        "C14" => c14::run(report),
         "C15" => c15::run(report),
         "C20" => c20::run(report),
         _ => {
